@@ -129,6 +129,7 @@ func (x *execState) configText(user string) string {
 	if c.Concurrent > 0 {
 		s += fmt.Sprintf("\tconcurrenttransfers = %d\n", c.Concurrent)
 	}
+	s += c.Filt.configLines()
 	s += fmt.Sprintf("[lfs \"transfer\"]\n\tmaxretries = %d\n\tmaxretrydelay = 1\n", c.MaxRetries)
 	if c.BatchSize > 0 {
 		s += fmt.Sprintf("\tbatchSize = %d\n", c.BatchSize)
@@ -250,6 +251,14 @@ func (x *execState) viol(sym, trig, what string) {
 }
 
 func (x *execState) trigger(kind string, o op) string {
+	if f := x.c.Filt; f.configured() && kind != "clean" && o.Obj >= 0 {
+		// a smudge of a pointer under an include/exclude/skip configuration
+		t := "include-exclude/" + f.Shape + "/" + map[string]string{"dsmudge": "can-delay", "smudge": "no-delay", "retrieve": "retrieve"}[kind]
+		if f.Skip != "" {
+			t += "+skip-" + f.Skip
+		}
+		return t
+	}
 	t := kind + "/" + o.PayClass
 	if x.c.SkipErr {
 		t += "+skiperr"
@@ -355,6 +364,9 @@ func (x *execState) closeFilter() {
 func (x *execState) reference(cmd, path string, payload []byte, obj *object) refResult {
 	localFlag := obj != nil && x.local[obj.Oid]
 	key := fmt.Sprintf("%s/%s/%v", cmd, sbx.Sha256Hex(payload), localFlag)
+	if x.c.Filt != nil {
+		key += "/" + path // the include/exclude verdict depends on the pathname
+	}
 	if v, ok := x.refCache[key]; ok {
 		x.run.Count("oneshot_reference_cache_hits", 1)
 		return v
@@ -373,7 +385,11 @@ func (x *execState) reference(cmd, path string, payload []byte, obj *object) ref
 		panic(err)
 	}
 	defer fh.Close()
-	res := x.env.Run(sbx.RunOpt{Dir: tw, Stdin: fh}, "git-lfs", cmd, "--", path)
+	args := []string{cmd, "--", path}
+	if cmd == "smudge" {
+		args = x.c.Filt.smudgeArgs(path)
+	}
+	res := x.env.Run(sbx.RunOpt{Dir: tw, Stdin: fh, Env: x.c.Filt.procEnv()}, "git-lfs", args...)
 	x.run.Count("oneshot_reference_runs_"+cmd, 1)
 	rr := refResult{Code: res.Code, Out: res.Stdout, Err: sbx.Trunc(res.Stderr, 600), Crash: res.GoCrash()}
 	if res.TimedOut {
@@ -407,6 +423,27 @@ func (x *execState) expectFor(kind string, o op) (expect, bool) {
 			return expect{Mode: "content", Content: rr.Out}, true
 		}
 		return expect{Mode: "fail"}, true
+	case x.c.Filt != nil && kind != "clean" && obj != nil:
+		// include/exclude/skip configured: whether the pointer is replaced at all is the
+		// one-shot filter's verdict on this pathname; the driver has no model of it
+		rr := x.reference(cmd, o.Path, o.Payload, obj)
+		x.run.Count("inclexcl_oneshot_expectations", 1)
+		if rr.Crash {
+			x.viol("go-panic", "oneshot-"+cmd+"/"+o.PayClass, "one-shot "+cmd+" crashed: "+rr.Err)
+			return e, false
+		}
+		switch {
+		case rr.Code != 0 && obj.Kind == kFlaky:
+			// never stricter than without the coordinate: a one-shot filter that fails was
+			// allowed to fetch the object; the right content is accepted, a failure too
+			// (request() asks the same twin result again)
+			return expect{Mode: "flaky", Content: obj.Content}, true
+		case rr.Code != 0:
+			return expect{Mode: "fail"}, true
+		case obj.Kind == kFlaky && bytes.Equal(rr.Out, obj.Content):
+			return expect{Mode: "flaky", Content: rr.Out}, true
+		}
+		return expect{Mode: "content", Content: rr.Out}, true
 	case kind == "clean":
 		switch {
 		case len(o.Payload) == 0, strings.HasPrefix(o.PayClass, "ptr-canonical"):
@@ -463,6 +500,39 @@ func (x *execState) extraHeaders(payload []byte) []string {
 	return []string{"treeish=" + x.treeish, "blob=" + gitBlobSha(payload)}
 }
 
+// countVerdict: smudge requests under an include/exclude/skip configuration, by
+// what the one-shot filter does with the pathname (object bytes = allowed,
+// pointer text = not allowed) x how the request is made.
+func (x *execState) countVerdict(kind string, o op, exp expect) {
+	obj := x.objOf(o)
+	if obj == nil {
+		x.run.Count("inclexcl_smudge_non_pointer", 1)
+		return
+	}
+	how := map[string]string{"dsmudge": "can_delay", "smudge": "no_delay", "retrieve": "retrieve"}[kind]
+	where := "object_" + obj.Kind
+	if x.local[obj.Oid] {
+		where = "object_local"
+	}
+	v := "other_text"
+	switch {
+	case exp.Mode == "fail":
+		v = "oneshot_fails"
+	case x.c.Filt.Skip != "":
+		v = "skipped"
+	case bytes.Equal(exp.Content, obj.Content):
+		v = "allowed"
+	case bytes.Equal(exp.Content, []byte(obj.Ptr)) && x.c.SkipErr && !x.local[obj.Oid] && !obj.obtainableFromServer():
+		v = "pointer_not_allowed_or_download_error_skipped"
+	case bytes.Equal(exp.Content, []byte(obj.Ptr)):
+		v = "not_allowed"
+	}
+	x.run.Count("inclexcl_smudge_"+v+"_"+how, 1)
+	if v == "allowed" || v == "not_allowed" {
+		x.run.Count("inclexcl_smudge_"+v+"_"+where, 1)
+	}
+}
+
 // request sends one clean/smudge/dsmudge/retrieve request and judges the answer.
 func (x *execState) request(kind string, o op) {
 	if x.done {
@@ -484,6 +554,9 @@ func (x *execState) request(kind string, o op) {
 		x.run.Count("retrievals_of_undownloadable_blob_from_local_store", 1)
 	}
 	te.Expect = exp.Mode
+	if x.c.Filt != nil && cmdKind == "smudge" {
+		x.countVerdict(kind, o, exp)
+	}
 	rq := fpclient.Request{Command: cmdKind, Path: o.Path}
 	if kind != "retrieve" {
 		rq.Payload = o.Payload
@@ -883,7 +956,11 @@ func (rn *runner) exec(c *ccase, seed int64) {
 	if c.Delay {
 		caps = append(caps, "delay")
 	}
-	cl, err := fpclient.Start(env, x.repo, caps, nil)
+	var fpArgs []string
+	if c.Filt != nil && c.Filt.Skip == "flag" {
+		fpArgs = []string{"--skip"}
+	}
+	cl, err := fpclient.Start(env, x.repo, caps, c.Filt.procEnv(), fpArgs...)
 	run.Count("filter_processes", 1)
 	if err != nil {
 		if cl != nil {
